@@ -785,8 +785,35 @@ def run(ctx, report):
     else:
         R5.ok('__str__:mandatory-prefix', sample='__str__ selects the mandatory prefix among the 66/F2/F3 prefixes only')
 
+    # ---------------------------------------------------------------- D8 string instructions: the source segment follows the override prefix
+    R8 = report.rule('C01.D8', 'string instructions: [esi] takes the segment-override prefix, [edi] stays in es', floor=30)
+    from .. import stringops as SO
+    afs = X.afs
+    esi, edi = afs.reg_dict[afs.r_esi], afs.reg_dict[afs.r_edi]
+    for fam, n_ops in SO.FAMILIES:
+        for sfx in ('b', 'd'):
+            mn = fam + sfx
+            for segname, pbyte in sorted(SO.SEG_PREFIX.items()) + [(None, None)]:
+                ops = SO.decoded_operands(X, mn, [pbyte] if pbyte else [])
+                inst = '%s %s' % (('%s:' % segname) if segname else 'no override', mn)
+                want_src = afs.reg_sg.index(segname) if segname else afs.reg_sg.index('ds')
+                problems = []
+                if len(ops) != n_ops:
+                    problems.append('%d operands instead of %d' % (len(ops), n_ops))
+                for o in ops:
+                    if esi in o and o.get(afs.segm) != want_src:
+                        problems.append('[esi] operand is in segment %s, the instruction reads %s:[esi]' % (afs.reg_sg[o.get(afs.segm)] if o.get(afs.segm) is not None else None, afs.reg_sg[want_src]))
+                    if edi in o and o.get(afs.segm) != afs.reg_sg.index('es'):
+                        problems.append('[edi] operand is not in es')
+                if problems:
+                    R8.violation(inst, 'string-segment:%s:%s' % (fam, ';'.join(problems)[:80]), '%s: %s' % (inst, '; '.join(problems)), where(arch, arch.method('x86_mn', 'special_opcodes')),
+                                 witness='dis(64 a4): movs BYTE PTR es:[edi], BYTE PTR fs:[esi]')
+                else:
+                    R8.ok(inst, sample='%s -> segments %s' % (inst, [afs.reg_sg[o[afs.segm]] for o in ops]))
+
 
 MUTANTS = [
+    ('string-src-ds', 'miasmx/arch/ia32_arch.py', "    for p in prefix:\n        if p in prefix_seg_inv:\n            segm = prefix_seg_inv[p]\n    return segm", "    return segm", 'C01.D8'),
     ('memonly-lea-reg', 'miasmx/arch/ia32_arch.py', "                  'lea', 'lds', 'les', 'lss', 'lfs', 'lgs', 'bound',", "                  'lds', 'les', 'lss', 'lfs', 'lgs', 'bound',", 'C01.D7'),
     ('mmx-admode16-accepted', 'miasmx/arch/ia32_arch.py', "                if self.admode == u16:\n                    # 16-bit addressing of MMX/SSE operands is not", "                if False:\n                    # 16-bit addressing of MMX/SSE operands is not", 'C01.D5'),
     ('crdr-mod-honoured', 'miasmx/arch/ia32_arch.py', "                        c |= 0xC0\n", "                        pass\n", 'C01.D6'),
